@@ -5,6 +5,7 @@ use proptest::prelude::*;
 use serde::{Deserialize, Serialize};
 use serde_json::{json, Value};
 
+use crate::vf::codec::{AmbientGuard, IpTweak};
 use crate::vf::dec_app::*;
 use crate::vf::engine::*;
 use crate::vf::gen::*;
@@ -34,6 +35,9 @@ pub struct Case {
     pub dport: u16,
     pub tcp: bool,
     pub msg: Msg,
+    /// IP / TCP header fields the responder is not documented to look at
+    #[serde(default)]
+    pub tweak: Option<IpTweak>,
 }
 
 pub fn case_strategy() -> impl Strategy<Value = Case> {
@@ -44,9 +48,9 @@ pub fn case_strategy() -> impl Strategy<Value = Case> {
         1 => ssh_banner().prop_map(|b| Msg::MissingDash { b }),
         3 => ghost_req().prop_map(Msg::Ghost),
     ];
-    (scenario(Fam::Any), port(), port(), any::<bool>(), msg).prop_map(|(mut scn, sport, dport, tcp, msg)| {
+    (scenario(Fam::Any), port(), port(), any::<bool>(), msg, prop::option::weighted(0.25, crate::vf::props::c03::ip_tcp_tweak())).prop_map(|(mut scn, sport, dport, tcp, msg, tweak)| {
         scn.cfg.logger = LoggerKind::None;
-        Case { scn, sport, dport, tcp, msg }
+        Case { scn, sport, dport, tcp, msg, tweak }
     })
 }
 
@@ -57,6 +61,7 @@ fn has_crlf(v: &[u8]) -> bool {
 pub fn check(c: &Case, st: &mut Stats) -> Check {
     Sut::reset();
     st.eval();
+    let _ambient = AmbientGuard::set(&c.tweak);
     let sut = Sut::new(&c.scn.cfg);
     let (bytes, expect, kind): (Vec<u8>, Option<bool>, &str) = match &c.msg {
         Msg::Banner(b) => (b.bytes(), Some(true), "banner"),
@@ -229,7 +234,7 @@ pub fn flow_strategy() -> impl Strategy<Value = FlowCase> {
         2 => "SSH-2\\.0-[A-Za-z0-9_.]{1,20}( [ -~]{0,20})?".prop_map(|s| Hex(s.into_bytes())),
         1 => "[ -~]{1,40}".prop_map(|s| Hex(s.into_bytes())),
     ];
-    (scenario_quiet(Fam::Any), port(), port(), ssh_banner(), prop::bool::weighted(0.8), vec(later, 1..=4)).prop_map(|(scn, sport, dport, mut first, first_valid, later)| {
+    (scenario_levels(Fam::Any), port(), port(), ssh_banner(), prop::bool::weighted(0.8), vec(later, 1..=4)).prop_map(|(scn, sport, dport, mut first, first_valid, later)| {
         first.tail = Hex(vec![]);
         FlowCase { scn, sport, dport, first, first_valid, later }
     })
@@ -293,7 +298,7 @@ impl Prop for C18 {
         let m = ctx.share(ctx.tier.n(200_000, 3_000_000));
         ctx.run_generated("flow", m, flow_strategy(), flow_check);
         let g = ctx.share(ctx.tier.n(100_000, 1_500_000));
-        ctx.run_generated("gh0st-flow", g, (scenario_quiet(Fam::Any), port(), port(), vec(ghost_req(), 2..=3)).prop_map(|(scn, sport, dport, pkts)| GhostFlow { scn, sport, dport, pkts }), ghost_flow_check);
+        ctx.run_generated("gh0st-flow", g, (scenario_levels(Fam::Any), port(), port(), vec(ghost_req(), 2..=3)).prop_map(|(scn, sport, dport, pkts)| GhostFlow { scn, sport, dport, pkts }), ghost_flow_check);
     }
     fn replay(&self, stream: &str, case: &Value, st: &mut Stats) -> Check {
         let bad = |e: serde_json::Error| Failure::new(format!("bad case: {}", e));
